@@ -53,6 +53,10 @@ Fmts == { Fmt(<<"{", "m", "}">>, Rec.msg, NoParams), Fmt(<<"{", "m", "e", "s", "
           Fmt(<<"{", "d", "(", "%", "H", ":", "%", "M", ")", "(", "u", "t", "c", ")", "}">>, <<"<date>", "<fmt>", "%", "H", ":", "%", "M", "</fmt>", "<utc>">>, NoParams),
           Fmt(<<"{", "d", "a", "t", "e", "(", "%", "d", "-", "%", "H", ")", "}">>, <<"<date>", "<fmt>", "%", "d", "-", "%", "H", "</fmt>", "<local>">>, NoParams),
           Fmt(<<"{", "d", "}">>, <<"<date>", "<fmt>", "%", "+", "</fmt>", "<local>">>, NoParams),
+          Fmt(<<"{", "d", "(", "%", "Z", ")", "(", "u", "t", "c", ")", "}">>, <<"<date>", "<fmt>", "%", "Z", "</fmt>", "<utc>">>, NoParams),
+          Fmt(<<"{", "d", "(", "%", "z", " ", "%", "Z", ")", "}">>, <<"<date>", "<fmt>", "%", "z", " ", "%", "Z", "</fmt>", "<local>">>, NoParams),
+          Fmt(<<"{", "d", "(", "%", "a", "%", "b", "%", "e", "%", "j", "%", "y", ")", "(", "u", "t", "c", ")", "}">>,
+              <<"<date>", "<fmt>", "%", "a", "%", "b", "%", "e", "%", "j", "%", "y", "</fmt>", "<utc>">>, NoParams),
           Fmt(<<"{", "X", "(", "k", ")", "}">>, MdcVal(<<"k">>, <<>>), NoParams),
           Fmt(<<"{", "m", "d", "c", "(", "z", "z", ")", "(", "q", ")", "}">>, MdcVal(<<"z", "z">>, <<"q">>), NoParams),
           Fmt(<<"{", "X", "(", "z", ")", "}">>, MdcVal(<<"z">>, <<>>), NoParams),
